@@ -223,9 +223,11 @@ def _realloc(ck, P, cfg):
     ln = X.strip(args[2])
     mins = X.expansions(args[2], "min")
     txt = X.show(ln)
-    has_req = any(x.k == "DeclRefExpr" and x.name == req for x in args[2].walk())
-    has_orig = any(x.k == "MemberExpr" and x.name == "original" for x in args[2].walk())
-    if mins and has_req and has_orig:
+    from ..rules_buddy import min_operands
+    ops = min_operands(f, args[2])
+    has_req = any(x.k == "DeclRefExpr" and x.name == req for o in ops for x in o.walk())
+    has_orig = any(x.k == "MemberExpr" and x.name == "original" for o in ops for x in o.walk())
+    if len(ops) == 2 and has_req and has_orig:
         pass
     elif has_req and not has_orig:
         ck.violated("C12.3", inst + ":length", c0.where, "copies %s bytes: when the block grows this reads past the end of the old block" % req, cfg)
